@@ -25,19 +25,19 @@ REG = {}
 
 def _reg(prop, module, cls, level, runs, batch, builds, components, rule, budget=None):
     REG[prop] = dict(prop=prop, module=module, cls=cls, level=level, runs=runs, batch=batch, builds=builds,
-                     components=components, rule=rule, budget=budget or {"quick": 50, "thorough": 900})
+                     components=components, rule=rule, budget=budget or {"quick": 60, "thorough": 900})
 
 
-_reg("C01", "xsim.manager.props", "C01", "exploration", {"quick": 6400, "thorough": 200000}, {"quick": 200, "thorough": 800},
+_reg("C01", "xsim.manager.props", "C01", "exploration", {"quick": 6400, "thorough": 1500000}, {"quick": 200, "thorough": 1000},
      ("pure", "compiled"), COMPONENTS_MANAGER,
      "one case = one seeded world + history of 5..40 (quick) / 5..120 (thorough) assignment ops run under one "
      "(PYTHONHASHSEED, build, name salt); distinct = distinct case digest; non-trivial = at least one update that "
      "triggered >= 1 task")
-_reg("C02", "xsim.manager.props", "C02", "exploration", {"quick": 6400, "thorough": 200000}, {"quick": 200, "thorough": 800},
+_reg("C02", "xsim.manager.props", "C02", "exploration", {"quick": 9600, "thorough": 1500000}, {"quick": 200, "thorough": 1000},
      ("pure", "compiled"), COMPONENTS_MANAGER,
      "one case = seeded world + history; every propagating op's container-write/action trace is attributed to tasks; "
      "distinct = distinct case digest; non-trivial = at least one update that triggered >= 1 task")
-_reg("C03", "xsim.manager.props", "C03", "exploration", {"quick": 4800, "thorough": 150000}, {"quick": 150, "thorough": 600},
+_reg("C03", "xsim.manager.props", "C03", "exploration", {"quick": 6400, "thorough": 400000}, {"quick": 200, "thorough": 800},
      ("pure", "compiled"), COMPONENTS_MANAGER,
      "one case = seeded world + history biased to register/unregister/replace/load over nested targets; after every op the "
      "subject is compared with a freshly built manager (index supports, verify, queries, reaction to the next op); "
@@ -54,59 +54,59 @@ _reg("C17", "xsim.manager.props", "C17", "fault_enumeration", {"quick": 1280, "t
      "generated API calls (assign expression/value, in-place op, register, unregister, load, copy_expr_from, refresh, verify, "
      "cleanup, clone); then unfrozen and the rest of the history is run; distinct = distinct case digest; non-trivial = at least "
      "one mutating call was made on a frozen manager (count in probes.mutating_calls_on_frozen)")
-_reg("C12", "xsim.manager.props", "C12", "exploration", {"quick": 4800, "thorough": 150000}, {"quick": 150, "thorough": 600},
+_reg("C12", "xsim.manager.props", "C12", "exploration", {"quick": 16000, "thorough": 1000000}, {"quick": 250, "thorough": 1000},
      ("pure", "compiled"), COMPONENTS_MANAGER,
      "one case = seeded expression/linear-knob history with 1-3 pickle restarts at random positions, each followed by one of: "
      "mirrored assignments on original and copy, assignments to the copy only, assignments to the original only; distinct = "
      "distinct case digest; non-trivial = at least one pickle restart was executed")
-_reg("C11", "xsim.manager.props", "C11", "exploration", {"quick": 4800, "thorough": 150000}, {"quick": 150, "thorough": 600},
+_reg("C11", "xsim.manager.props", "C11", "exploration", {"quick": 16000, "thorough": 1000000}, {"quick": 250, "thorough": 1000},
      ("pure", "compiled"), COMPONENTS_MANAGER,
      "one case = seeded expression history with 1-3 'restarts' at random positions: dump() -> json -> load() into a fresh manager "
      "(then mirrored execution), or copy_expr_from into another manager (plain, or rebinding the label to a nested reference, "
      "overwrite both ways, pre-existing definitions); every assigned expression and target is also printed and re-evaluated; "
      "distinct = distinct case digest; non-trivial = at least one restart was executed")
-_reg("C13", "xsim.manager.props", "C13", "exploration", {"quick": 4800, "thorough": 150000}, {"quick": 150, "thorough": 600},
+_reg("C13", "xsim.manager.props", "C13", "exploration", {"quick": 9600, "thorough": 600000}, {"quick": 150, "thorough": 600},
      ("pure", "compiled"), COMPONENTS_MANAGER,
      "one case = seeded acyclic expression history with 1-4 gen_fun calls at random positions (1-3 graph-leaf arguments, generated "
      "values); the subject calls the generated function, a twin manager with the same history assigns through set_value; the "
      "mk_fun source is checked line by line; distinct = distinct case digest; non-trivial = at least one generated function was called")
-_reg("C20", "xsim.manager.props", "C20", "exploration", {"quick": 2400, "thorough": 40000}, {"quick": 150, "thorough": 500},
+_reg("C20", "xsim.manager.props", "C20", "exploration", {"quick": 4800, "thorough": 60000}, {"quick": 150, "thorough": 500},
      ("pure", "compiled"), COMPONENTS_MANAGER,
      "one case = one seeded program (history with fixed names + 0-2 assignments that make Python raise) executed in N fresh "
      "interpreters: {compiled, pure} x hash seeds (quick 2x2, thorough 2x8); the per-op transcript (exception type, canonical "
      "contents, sorted definitions, dump() in its own order) must have the same digest in all of them; evaluations = program "
      "executions; distinct = distinct programs; non-trivial = the program had at least one update that triggered a task")
 REG["C20"]["cross"] = {"quick": 2, "thorough": 8}      # hash seeds per build
-_reg("C07", "xsim.table.props", "C07", "exploration", {"quick": 8000, "thorough": 300000}, {"quick": 250, "thorough": 1000},
+_reg("C07", "xsim.table.props", "C07", "exploration", {"quick": 64000, "thorough": 3000000}, {"quick": 1000, "thorough": 4000},
      ("pure",), COMPONENTS_TABLE,
      "one case = 1-3 seeded tables (0..40 rows, index column over a 3-5 name alphabet with repetition) + a history of lookups "
      "(t[col,row], rows.get_index, t // row, get_index_unique) interleaved with mutations (cell by position/name/name::k/tuple, whole "
      "column item/attr style, new/deleted columns, index column replaced via pop+assign), cache warm or cold, optional torn array "
      "writes; distinct = distinct case digest; non-trivial = the index column was mutated at least once")
-_reg("C08", "xsim.table.props", "C08", "exploration", {"quick": 8000, "thorough": 300000}, {"quick": 250, "thorough": 1000},
+_reg("C08", "xsim.table.props", "C08", "exploration", {"quick": 64000, "thorough": 3000000}, {"quick": 1000, "thorough": 4000},
      ("pure",), COMPONENTS_TABLE,
      "one case = 1-3 seeded tables + a history of rows[...] / rows.indices[...] / rows.mask[...] with every selector form (position, "
      "lists, masks, regex with ::count and shifts, name spans, value ranges open and closed), pairs for the composition law, on "
      "tables that are also mutated and derived; each worker interpreter runs under its own PYTHONHASHSEED; distinct = distinct "
      "case digest; non-trivial = at least one selection was compared with the naive selector")
-_reg("C14", "xsim.table.props", "C14", "exploration", {"quick": 8000, "thorough": 300000}, {"quick": 250, "thorough": 1000},
+_reg("C14", "xsim.table.props", "C14", "exploration", {"quick": 48000, "thorough": 3000000}, {"quick": 750, "thorough": 4000},
      ("pure",), COMPONENTS_TABLE,
      "one case = 1-3 seeded tables + a history of derivations (rows, cols incl. expression columns, +, *, concatenate, _copy, _t) "
      "and column/cell assignments over a population of up to 7 live tables that may share arrays; after every op every live table "
      "is checked; distinct = distinct case digest; non-trivial = at least one derivation produced a table")
-_reg("C09", "xsim.optimizer.props", "C09", "fault_enumeration", {"quick": 960, "thorough": 40000}, {"quick": 30, "thorough": 150},
+_reg("C09", "xsim.optimizer.props", "C09", "fault_enumeration", {"quick": 2560, "thorough": 100000}, {"quick": 40, "thorough": 150},
      ("pure",), COMPONENTS_OPT,
      "one case = one generated problem (plant family, limits, weights, tolerances, solver options, optional earlier steps); solve() "
      "is run fault-free (N plant evaluations), then once for EVERY evaluation index k < N (capped at 40, evenly spread) with the "
      "action raising at k and once with it returning 'failed' at k, plus random multi-fault plans; distinct = distinct case "
      "digest; non-trivial = at least one faulted solve was executed (count in probes.faulted_solves)")
-_reg("C10", "xsim.optimizer.props", "C10", "exploration", {"quick": 3200, "thorough": 100000}, {"quick": 100, "thorough": 400},
+_reg("C10", "xsim.optimizer.props", "C10", "exploration", {"quick": 32000, "thorough": 1500000}, {"quick": 500, "thorough": 2000},
      ("pure",), COMPONENTS_OPT,
      "one case = one generated problem (solutions inside, outside and far from the limits; per-knob max_step; persistently and "
      "per-call disabled knobs/targets; unit and non-unit weights) + a history of step/solve/enable/disable/reload/tag calls, "
      "optionally with 'failed' plant evaluations and a twin run whose disabled target returns unrelated values; distinct = "
      "distinct case digest; non-trivial = at least one step/solve call was monitored")
-_reg("C15", "xsim.optimizer.props", "C15", "exploration", {"quick": 3200, "thorough": 100000}, {"quick": 100, "thorough": 400},
+_reg("C15", "xsim.optimizer.props", "C15", "exploration", {"quick": 32000, "thorough": 1500000}, {"quick": 500, "thorough": 2000},
      ("pure",), COMPONENTS_OPT,
      "one case = one generated problem + a history of step/solve/reload/reload(tag)/tag/enable/disable/clear_log/user knob "
      "assignments (failing solves included, optional fault plans); after every call the log must be aligned and readable and a "
